@@ -151,7 +151,8 @@ def compile_once(repo, src, workdir, cfg, pert, _prior=False):
     cmd = [PY, os.path.join(repo, 'tools', 'tzcompiler.py'), '--input_dir', 'in', '--output_dir', 'out',
            '--tz_version', '2020d', '--action', actions, '--language', language, '--scope', scope,
            '--start_year', str(start), '--until_year', str(until)] + extra
-    old = os.umask(pert['umask'])
+    # the umask is applied inside the child (the parent's is process-wide and this function runs on 16 threads)
+    cmd = ['sh', '-c', 'umask %03o; exec "$@"' % pert['umask'], 'sh'] + cmd
     stdio = pert.get('stdio', 'pipe')
     errtext = ''
     try:
@@ -186,8 +187,8 @@ def compile_once(repo, src, workdir, cfg, pert, _prior=False):
             p = subprocess.run(cmd, cwd=cwd, env=env, stdout=subprocess.PIPE, stderr=subprocess.PIPE, text=True,
                                timeout=600, errors='replace')
             rc, errtext = p.returncode, p.stderr
-    finally:
-        os.umask(old)
+    except subprocess.TimeoutExpired:
+        raise K.HarnessError('tzcompiler did not finish within 600 s (cfg %s, perturbation %s)' % (cfg, pert))
     if rc != 0:
         raise K.HarnessError('tzcompiler failed (cfg %s, perturbation %s):\n%s' % (cfg, pert, errtext[-2000:]))
     files = {}
